@@ -649,6 +649,15 @@ class VecExpr:
             if n.id not in self.env:
                 raise TranslateError(f"unknown name {n.id}")
             return self.env[n.id]
+        if isinstance(n, (ast.Attribute, ast.Call)) and ast.unparse(n) in self.env:
+            return self.env[ast.unparse(n)]      # a field of `mats` or an oracle call, bound by its exact text
+        if isinstance(n, ast.UnaryOp) and isinstance(n.op, ast.USub) and self.tr(n.operand)[1] == "f":
+            return (f"(PrimFloat.opp {self.tr(n.operand)[0]})", "f")
+        if isinstance(n, ast.ListComp) and len(n.generators) == 1 and not n.generators[0].ifs and isinstance(n.generators[0].target, ast.Name) \
+                and isinstance(n.elt, ast.Subscript) and isinstance(n.elt.slice, ast.Name) and n.elt.slice.id == n.generators[0].target.id:
+            (a, ta), (i_, ti_) = self.tr(n.elt.value), self.tr(n.generators[0].iter)
+            if ta == "v" and ti_ == "iv":
+                return (f"(List.map (fun i_ => List.nth i_ {a} nan) {i_})", "v")     # [a[i] for i in idx]
         if isinstance(n, ast.Attribute) and n.attr == "T":
             a, ta = self.tr(n.value)
             if ta == "v":
@@ -1321,6 +1330,112 @@ def gen_ls_bookkeeping():
 
 
 GENERATORS["LsBook.v"] = gen_ls_bookkeeping
+
+
+def gen_subspace_tail():
+    """subspacemin.subspace_minimization: everything except the reduced solve (which stays an oracle): the early return, the
+    reduced gradient r and its restriction rHat, dHat from the oracle's answer, the backtracking factor alpha_star and the
+    returned point; plus the construction of the selection matrix Z in get_freev."""
+    L = ["(* GENERATED from /repo/lbfgsb/subspacemin.py by harness/translate.py - do not edit *)",
+         "From Coq Require Import List Bool Floats.PrimFloat.", "From LBFGSB Require Import Model.FloatVec Model.NumpyOps.", "Import ListNotations.", ""]
+    st_ = ast.parse(_src("subspacemin.py"))
+    # --- get_freev: Z is the selection matrix of free_vars, n = x_cp.size
+    gf = _func(st_, "get_freev")
+    asg = {}
+    for a_ in ast.walk(gf):
+        if isinstance(a_, (ast.Assign, ast.AnnAssign)) and getattr(a_, "value", None) is not None:
+            asg.setdefault(ast.unparse(a_.targets[0] if isinstance(a_, ast.Assign) else a_.target), []).append(ast.unparse(a_.value))
+    want = {"n": ["x_cp.size"], "nb_free_vars": ["free_vars.size"], "Z": ["lil_matrix((n, nb_free_vars))"], "Z[free_vars, np.arange(nb_free_vars)]": ["1"]}
+    for k_, v_ in want.items():
+        if asg.get(k_) != v_:
+            raise TranslateError(f"get_freev: {k_} is assigned {asg.get(k_)}, expected {v_}")
+    rets = [ast.unparse(r_.value) for r_ in ast.walk(gf) if isinstance(r_, ast.Return)]
+    if rets != ["(free_vars, Z.tocsc(), A.tocsc())"]:
+        raise TranslateError("get_freev: unexpected return " + repr(rets))
+    # --- subspace_minimization
+    fn = _func(st_, "subspace_minimization")
+    params = [a.arg for a in fn.args.args]
+    if params[:10] != ["x", "xc", "free_vars", "Z", "A", "c", "grad", "lb", "ub", "mats"]:
+        raise TranslateError("subspace_minimization: unexpected parameters " + repr(params))
+    body = [s_ for s_ in fn.body if not (isinstance(s_, ast.Expr) and isinstance(s_.value, ast.Constant))]
+    u = [ast.unparse(s_) for s_ in body]
+    env = {"x": ("x", "v"), "xc": ("xc", "v"), "c": ("c", "v"), "grad": ("grad", "v"), "lb": ("lb", "v"), "ub": ("ub", "v"),
+           "free_vars": ("free_vars", "iv"), "mats.theta": ("theta", "f")}
+    def assign(i, name):
+        s_ = body[i]
+        if not (isinstance(s_, ast.Assign) and len(s_.targets) == 1 and ast.unparse(s_.targets[0]) == name):
+            raise TranslateError(f"subspace_minimization: statement {i} is not an assignment of {name}: " + u[i])
+        return s_.value
+    lets = []
+    def bind(i, name, coq, want_ty):
+        t_, ty_ = VecExpr(env).tr(assign(i, name))
+        if ty_ != want_ty:
+            raise TranslateError(f"subspace_minimization: {name} has type {ty_}")
+        lets.append(f"let {coq} := {t_} in")
+        env[name] = (coq, ty_)
+    bind(0, "invThet", "invThet", "f")
+    if u[1] != "if len(free_vars) == 0:\n    return xc":
+        raise TranslateError("subspace_minimization: early return not found: " + u[1])
+    if u[2] != "WTZ = Z.T.dot(mats.W).T":
+        raise TranslateError("subspace_minimization: unexpected WTZ: " + u[2])
+    bind(3, "r", "r0_", "v")
+    if u[4] != "if mats.use_factor:\n    r -= mats.W.dot(bmv(mats.invMfactors, c))":
+        raise TranslateError("subspace_minimization: unexpected correction of r: " + u[4])
+    lets.append("let r1_ := if use_factor then vinplace PrimFloat.sub r0_ (o_Wc c) else r0_ in")
+    env["r"] = ("r1_", "v")
+    bind(5, "rHat", "rHat", "v")
+    if u[6] != "v = WTZ.dot(rHat)":
+        raise TranslateError("subspace_minimization: unexpected right-hand side of the reduced system: " + u[6])
+    k = [i for i, s_ in enumerate(u) if s_.startswith("dHat = ")]
+    if len(k) != 1 or k[0] != len(body) - 4:
+        raise TranslateError("subspace_minimization: dHat is not assigned once, four statements before the end")
+    k = k[0]
+    # the reduced solve (statements 7 .. k-1) is the oracle: it may only write its own temporaries
+    ok_targets = {"v", "K", "LK", "N", "M"}
+    for s_ in body[7:k]:
+        for n_ in ast.walk(s_):
+            if isinstance(n_, ast.Name) and isinstance(n_.ctx, ast.Store) and n_.id not in ok_targets:
+                raise TranslateError("subspace_minimization: the reduced solve writes " + n_.id)
+            if isinstance(n_, ast.Return):
+                raise TranslateError("subspace_minimization: the reduced solve returns")
+            if isinstance(n_, ast.Call) and isinstance(n_.func, ast.Attribute) and n_.func.attr in ("fill", "sort", "resize", "put", "itemset") \
+                    and ast.unparse(n_.func.value) not in ok_targets:
+                raise TranslateError("subspace_minimization: the reduced solve mutates " + ast.unparse(n_.func.value))
+            if isinstance(n_, (ast.Subscript, ast.Attribute)) and isinstance(n_.ctx, ast.Store) and ast.unparse(n_.value).split("[")[0].split(".")[0] not in ok_targets:
+                raise TranslateError("subspace_minimization: the reduced solve writes into " + ast.unparse(n_))
+    lets.append("let corr_ := o_corr free_vars rHat in")
+    env["np.transpose(WTZ).dot(v)"] = ("corr_", "v")
+    bind(k, "dHat", "dHat", "v")
+    bind(k + 1, "mask", "mask", "bv")
+    # alpha_star = min(1.0, np.nanmin(<q> if <sel>.size != 0 else 1.0))
+    a_ = assign(k + 2, "alpha_star")
+    if not (isinstance(a_, ast.Call) and ast.unparse(a_.func) == "min" and len(a_.args) == 2 and ast.unparse(a_.args[0]) == "1.0"
+            and isinstance(a_.args[1], ast.Call) and ast.unparse(a_.args[1].func) == "np.nanmin" and len(a_.args[1].args) == 1
+            and isinstance(a_.args[1].args[0], ast.IfExp)):
+        raise TranslateError("subspace_minimization: unexpected alpha_star: " + u[k + 2])
+    ife = a_.args[1].args[0]
+    if not (isinstance(ife.test, ast.Compare) and isinstance(ife.test.ops[0], ast.NotEq) and ast.unparse(ife.test.comparators[0]) == "0"
+            and isinstance(ife.test.left, ast.Attribute) and ife.test.left.attr == "size" and ast.unparse(ife.orelse) == "1.0"):
+        raise TranslateError("subspace_minimization: unexpected guard of np.nanmin: " + ast.unparse(ife))
+    sel_, ts_ = VecExpr(env).tr(ife.test.left.value)
+    q_, tq_ = VecExpr(env).tr(ife.body)
+    if ts_ != "v" or tq_ != "v":
+        raise TranslateError("subspace_minimization: np.nanmin is not over an array")
+    lets.append(f"let sel_ := {sel_} in")
+    lets.append(f"let q_ := {q_} in")
+    lets.append("let alpha_star := pymin 1%float (match sel_ with [] => 1%float | _ :: _ => np_nanmin q_ end) in")
+    if u[k + 3] != "return np.clip(xc + alpha_star * Z @ dHat, lb, ub)":
+        raise TranslateError("subspace_minimization: unexpected return: " + u[k + 3])
+    L.append("(* o_Wc c = mats.W.dot(bmv(mats.invMfactors, c)); o_corr free_vars rHat = np.transpose(WTZ).dot(v) after the reduced solve.\n"
+             "   Z is the selection matrix built by get_freev: lil_matrix((x_cp.size, free_vars.size)) with Z[free_vars, arange] = 1. *)")
+    L.append("Definition subspace_minimization (o_Wc : vec -> vec) (o_corr : list nat -> vec -> vec) (theta : float) (use_factor : bool)\n"
+             "    (x xc c grad lb ub : vec) (free_vars : list nat) : vec :=\n  " + "\n  ".join(lets[:1])
+             + "\n  match free_vars with [] => xc | _ :: _ =>\n  " + "\n  ".join(lets[1:])
+             + "\n  vclip (vadd xc (sel_matvec (PrimFloat.mul 1%float alpha_star) (List.length xc) free_vars dHat)) lb ub\n  end.")
+    return "\n".join(L) + "\n"
+
+
+GENERATORS["SubspaceTail.v"] = gen_subspace_tail
 
 
 def generate():
